@@ -149,3 +149,48 @@ Print Assumptions C32_float_accepts_iff_syntax.
 Theorem C32_int_values_roundtrip z : (int_min <= z <= int_max)%Z -> conv_int (print_int z) = Some z.
 Proof. exact (int_values_roundtrip z). Qed.
 Print Assumptions C32_int_values_roundtrip.
+
+(* ---- XML character data (TinyXML EncodeString / GetEntity / ReadText as used by Xml.cpp) *)
+Theorem C32_xml_char_roundtrip utf8 cw kq c rest :
+  get_char utf8 (enc1 cw kq c ++ rest) = Some ([c], rest).
+Proof. exact (xml_char_roundtrip utf8 cw kq c rest). Qed.
+Print Assumptions C32_xml_char_roundtrip.
+
+Theorem C32_xml_control_reference_roundtrip utf8 kq c rest : 1 <= c < 32 ->
+  enc1 true kq c = [38; 35; 120; hex_upper (c / 16); hex_upper (c mod 16); 59] /\
+  get_entity utf8 ([35; 120; hex_upper (c / 16); hex_upper (c mod 16); 59] ++ rest) = Some ([c], rest).
+Proof. exact (xml_control_reference_roundtrip utf8 kq c rest). Qed.
+Print Assumptions C32_xml_control_reference_roundtrip.
+
+Theorem C32_xml_hex_digit_case c : 65 <= c <= 70 -> hex_digit c = Some (c - 55) /\ hex_digit (c + 32) = Some (c - 55).
+Proof. exact (xml_hex_digit_case c). Qed.
+Print Assumptions C32_xml_hex_digit_case.
+
+Theorem C32_xml_attribute_roundtrip utf8 cw s : no_ref s = true ->
+  xml_read_attr utf8 (xml_encode cw false s) = Some s.
+Proof. exact (xml_attribute_roundtrip utf8 cw s). Qed.
+Print Assumptions C32_xml_attribute_roundtrip.
+
+Theorem C32_xml_text_roundtrip_keep utf8 s : no_ref s = true -> all_space s = false ->
+  xml_read_text false utf8 (xml_encode false true s) = Some s.
+Proof. exact (xml_text_roundtrip_keep utf8 s). Qed.
+Print Assumptions C32_xml_text_roundtrip_keep.
+
+Theorem C32_xml_roundtrip_refuted :
+  xml_read_attr true (xml_encode true false [38; 35; 120; 52; 49; 59]) = Some [65] /\
+  xml_read_attr true (xml_encode true false [97; 38; 35; 120]) = None.
+Proof. exact (@xml_roundtrip_refuted). Qed.
+Print Assumptions C32_xml_roundtrip_refuted.
+
+Theorem C32_xml_blank_text_refuted : xml_read_text true true (xml_encode true true [9]) = Some [] /\
+                               xml_read_text false true (xml_encode false true [32]) = Some [].
+Proof. exact (@xml_blank_text_refuted). Qed.
+Print Assumptions C32_xml_blank_text_refuted.
+
+Theorem C32_xml_reference_examples :
+  xml_read_attr true [38;35;120;48;97;59; 38;35;120;48;65;59; 38;35;49;48;59] = Some [10; 10; 10] /\
+  xml_read_text true true [32; 97; 32; 32; 38;35;120;48;65;59; 98; 32] = Some [97; 32; 10; 98] /\
+  xml_read_attr true [38;35;50;51;51;59] = Some [195; 169] /\
+  xml_read_attr true [38;35;120;90;59] = None.
+Proof. exact (@xml_reference_examples). Qed.
+Print Assumptions C32_xml_reference_examples.
